@@ -19,8 +19,8 @@ k/proof_gen.py, llvm_proof_hint*.py and the K tests):
     Module(name, sentences, attrs) [.axioms]  Definition(modules, attrs)
 
 ASSUMPTION: shape-compatible with pyk v0.1.535 for the constructors used.  No behaviour is stubbed
-beyond plain data and the trivially derived `.text` / `.axioms` / `.dict`-free properties; iterables are
-normalised to tuples (as pyk does) so that values are hashable and comparable.
+beyond plain data and the trivially derived `.text` (textual Kore) and `Module.axioms` properties; iterables
+are normalised to tuples (as pyk does) so that values are hashable and comparable.
 """
 from __future__ import annotations
 
